@@ -601,7 +601,7 @@ fn usable<K: Kit>(sp: &K::SP, spec_like: &Spec, bounded: bool) -> Result<(), Str
     Ok(())
 }
 
-fn c12_rv(rep: &mut Report) {
+fn c12_rv(rep: &mut Report, thorough: bool) {
     let vals = bound_values();
     // dimension x bounds length
     for dim in 0..=3usize {
@@ -649,37 +649,68 @@ fn c12_rv(rep: &mut Report) {
     for &l in &vals {
         for &u in &vals {
             for pos in 0..2 {
-                rep.count("evaluations", 1);
                 let mut b = vec![(0.0, 1.0), (0.0, 1.0)];
                 b[pos] = (l, u);
-                let input_wf = !l.is_nan() && !u.is_nan() && l < u;
-                let r = guarded(|| RealVectorStateSpace::new(2, Some(b.clone())));
-                let det = json!({"bounds": format!("{b:?}")});
-                match r {
-                    Err(c) => viol(rep, "C12", "RealVectorStateSpace|new-panic", format!("constructor unwound: {}", pmsg(c)), det),
-                    Ok(Ok(sp)) => {
-                        rep.count("constructed_ok", 1);
-                        rep.distinct.insert(h128(&[l.to_bits(), u.to_bits(), pos as u64, 1]));
-                        let cls = if l.is_nan() || u.is_nan() { "nan" } else { "order" };
-                        if let Err(e) = wf_box(&sp.bounds, 2) {
-                            viol(rep, "C12", &format!("RealVectorStateSpace|ill-formed-accepted|{cls}"), format!("Ok with ill-formed stored bounds: {e}"), det.clone());
-                        }
-                        let spec = Spec::Rv { dim: 2, bounds: Some(b.clone()), frac: None };
-                        let bounded = sp.bounds.iter().all(|(l, u)| l.is_finite() && u.is_finite());
-                        if let Err(e) = usable::<Rv>(&sp, &spec, bounded) {
-                            viol(rep, "C12", &format!("RealVectorStateSpace|returned-space-unusable|{cls}"), e, det);
-                        }
-                    }
-                    Ok(Err(e)) => {
-                        rep.count("constructed_err", 1);
-                        rep.distinct.insert(h128(&[l.to_bits(), u.to_bits(), pos as u64, 0]));
-                        if input_wf {
-                            viol(rep, "C12", "RealVectorStateSpace|well-formed-rejected", format!("well-formed bounds rejected with {e:?}"), det);
-                        } else if !matches!(e, StateSpaceError::InvalidBound { .. }) {
-                            viol(rep, "C12", "RealVectorStateSpace|wrong-error|order", format!("ill-ordered bounds reported as {e:?}"), det);
-                        }
-                    }
+                c12_rv_box(&b, rep);
+            }
+        }
+    }
+    // ... and in BOTH positions at once (a test on the box as a whole - a volume, a sum of widths - can be
+    // right for every single bad side and wrong for two), and three sides over a smaller lattice
+    let sub: Vec<f64> = if thorough { vals.clone() } else { vec![f64::NEG_INFINITY, -1.0, 0.0, 1.0, f64::INFINITY, f64::NAN, 1e-300, 1e308, -1e308] };
+    for &l0 in &sub {
+        for &u0 in &sub {
+            for &l1 in &sub {
+                for &u1 in &sub {
+                    c12_rv_box(&[(l0, u0), (l1, u1)], rep);
                 }
+            }
+        }
+    }
+    let sub3: Vec<f64> = if thorough { vec![f64::NEG_INFINITY, -1.0, 0.0, 1.0, f64::INFINITY, f64::NAN, 1e308] } else { vec![-1.0, 0.0, 1.0, f64::INFINITY] };
+    let pairs3: Vec<(f64, f64)> = sub3.iter().flat_map(|l| sub3.iter().map(move |u| (*l, *u))).collect();
+    for a in &pairs3 {
+        for b in &pairs3 {
+            for c in &pairs3 {
+                c12_rv_box(&[*a, *b, *c], rep);
+            }
+        }
+    }
+}
+
+/// One box handed to `RealVectorStateSpace::new`: `Ok` exactly for well-formed bounds, the documented error
+/// otherwise, and every returned space usable.
+fn c12_rv_box(b: &[(f64, f64)], rep: &mut Report) {
+    let dim = b.len();
+    rep.count("evaluations", 1);
+    let input_wf = b.iter().all(|(l, u)| !l.is_nan() && !u.is_nan() && l < u);
+    let r = guarded(|| RealVectorStateSpace::new(dim, Some(b.to_vec())));
+    let det = json!({"bounds": format!("{b:?}")});
+    let mut hb: Vec<u64> = b.iter().flat_map(|(l, u)| [l.to_bits(), u.to_bits()]).collect();
+    match r {
+        Err(c) => viol(rep, "C12", "RealVectorStateSpace|new-panic", format!("constructor unwound: {}", pmsg(c)), det),
+        Ok(Ok(sp)) => {
+            rep.count("constructed_ok", 1);
+            hb.push(1);
+            rep.distinct.insert(h128(&hb));
+            let cls = if b.iter().any(|(l, u)| l.is_nan() || u.is_nan()) { "nan" } else { "order" };
+            if let Err(e) = wf_box(&sp.bounds, dim) {
+                viol(rep, "C12", &format!("RealVectorStateSpace|ill-formed-accepted|{cls}"), format!("Ok with ill-formed stored bounds: {e}"), det.clone());
+            }
+            let spec = Spec::Rv { dim, bounds: Some(b.to_vec()), frac: None };
+            let bounded = sp.bounds.iter().all(|(l, u)| l.is_finite() && u.is_finite());
+            if let Err(e) = usable::<Rv>(&sp, &spec, bounded) {
+                viol(rep, "C12", &format!("RealVectorStateSpace|returned-space-unusable|{cls}"), e, det);
+            }
+        }
+        Ok(Err(e)) => {
+            rep.count("constructed_err", 1);
+            hb.push(0);
+            rep.distinct.insert(h128(&hb));
+            if input_wf {
+                viol(rep, "C12", "RealVectorStateSpace|well-formed-rejected", format!("well-formed bounds rejected with {e:?}"), det);
+            } else if !matches!(e, StateSpaceError::InvalidBound { .. }) {
+                viol(rep, "C12", "RealVectorStateSpace|wrong-error|order", format!("ill-ordered bounds reported as {e:?}"), det);
             }
         }
     }
@@ -771,6 +802,54 @@ fn c12_so3(rep: &mut Report) {
     }
 }
 
+/// One bounds vector handed to `SE2StateSpace::new` / `SE3StateSpace::new` (`pos`, `pc`: the side that was varied, for the class name).
+fn c12_se_case(b: &[(f64, f64)], pos: usize, pc: &(f64, f64), rep: &mut Report) {
+    let n = b.len();
+    let b = b.to_vec();
+    for se3 in [false, true] {
+        rep.count("evaluations", 1);
+        let det = json!({"space": if se3 { "SE3" } else { "SE2" }, "bounds": format!("{b:?}")});
+        let name = if se3 { "SE3StateSpace" } else { "SE2StateSpace" };
+        // independent prediction from the documented composition
+        let want_wf = n == 3
+            && b.iter().enumerate().all(|(i, (l, u))| {
+                if !se3 && i == 2 {
+                    let s = (l.max(-PI), u.min(PI));
+                    !l.is_nan() && !u.is_nan() && wf_so2(s).is_ok() && l < u
+                } else {
+                    !l.is_nan() && !u.is_nan() && l < u
+                }
+            });
+        let r: Result<Result<bool, StateSpaceError>, Caught> = if se3 {
+            guarded(|| SE3StateSpace::new(0.5, Some(b.clone())).map(|sp| usable::<Se3>(&sp, &Spec::Se3 { weight: 0.5, bounds: Some(vec![(0.0, 1.0); 3]) }, false).is_ok()))
+        } else {
+            guarded(|| SE2StateSpace::new(0.5, Some(b.clone())).map(|sp| usable::<Se2>(&sp, &Spec::Se2 { weight: 0.5, bounds: Some(vec![(0.0, 1.0), (0.0, 1.0), (-1.0, 1.0)]) }, false).is_ok()))
+        };
+        match r {
+            Err(c) => viol(rep, "C12", &format!("{name}|new-panic"), format!("constructor unwound: {}", pmsg(c)), det),
+            Ok(Ok(us)) => {
+                rep.count("constructed_ok", 1);
+                rep.distinct.insert(h128(&[n as u64, pos as u64, pc.0.to_bits(), pc.1.to_bits(), se3 as u64]));
+                if !want_wf {
+                    let cls = if n != 3 { "count" } else if pc.0.is_nan() || pc.1.is_nan() { "nan" } else if !se3 && pos == 2 && (pc.0 > PI || pc.1 < -PI) { "interval-outside-[-pi,pi]" } else { "order" };
+                    viol(rep, "C12", &format!("{name}|ill-formed-accepted|{cls}"), "Ok for ill-formed bounds".into(), det.clone());
+                }
+                if !us {
+                    viol(rep, "C12", &format!("{name}|returned-space-unusable"), "bounds operations unwound on the returned space".into(), det);
+                }
+            }
+            Ok(Err(e)) => {
+                rep.count("constructed_err", 1);
+                if want_wf {
+                    viol(rep, "C12", &format!("{name}|well-formed-rejected"), format!("rejected with {e:?}"), det);
+                } else if n != 3 && !matches!(e, StateSpaceError::DimensionMismatch { expected: 3, .. }) {
+                    viol(rep, "C12", &format!("{name}|wrong-error"), format!("wrong count reported as {e:?}"), det);
+                }
+            }
+        }
+    }
+}
+
 fn c12_se(rep: &mut Report) {
     let mut pair_cases: Vec<(f64, f64)> = vec![(0.0, 1.0), (1.0, 0.0), (0.0, 0.0), (f64::NAN, 1.0), (0.0, f64::INFINITY), (4.0, 5.0), (-4.0, 4.0), (-1.0, 2.5)];
     // every ordered pair of the SO(2) value lattice as well (the yaw bound of SE(2) goes through SO2StateSpace::new)
@@ -793,48 +872,18 @@ fn c12_se(rep: &mut Report) {
                 if n > 0 {
                     b[pos] = *pc;
                 }
-                for se3 in [false, true] {
-                    rep.count("evaluations", 1);
-                    let det = json!({"space": if se3 { "SE3" } else { "SE2" }, "bounds": format!("{b:?}")});
-                    let name = if se3 { "SE3StateSpace" } else { "SE2StateSpace" };
-                    // independent prediction from the documented composition
-                    let want_wf = n == 3
-                        && b.iter().enumerate().all(|(i, (l, u))| {
-                            if !se3 && i == 2 {
-                                let s = (l.max(-PI), u.min(PI));
-                                !l.is_nan() && !u.is_nan() && wf_so2(s).is_ok() && l < u
-                            } else {
-                                !l.is_nan() && !u.is_nan() && l < u
-                            }
-                        });
-                    let r: Result<Result<bool, StateSpaceError>, Caught> = if se3 {
-                        guarded(|| SE3StateSpace::new(0.5, Some(b.clone())).map(|sp| usable::<Se3>(&sp, &Spec::Se3 { weight: 0.5, bounds: Some(vec![(0.0, 1.0); 3]) }, false).is_ok()))
-                    } else {
-                        guarded(|| SE2StateSpace::new(0.5, Some(b.clone())).map(|sp| usable::<Se2>(&sp, &Spec::Se2 { weight: 0.5, bounds: Some(vec![(0.0, 1.0), (0.0, 1.0), (-1.0, 1.0)]) }, false).is_ok()))
-                    };
-                    match r {
-                        Err(c) => viol(rep, "C12", &format!("{name}|new-panic"), format!("constructor unwound: {}", pmsg(c)), det),
-                        Ok(Ok(us)) => {
-                            rep.count("constructed_ok", 1);
-                            rep.distinct.insert(h128(&[n as u64, pos as u64, pc.0.to_bits(), pc.1.to_bits(), se3 as u64]));
-                            if !want_wf {
-                                let cls = if n != 3 { "count" } else if pc.0.is_nan() || pc.1.is_nan() { "nan" } else if !se3 && pos == 2 && (pc.0 > PI || pc.1 < -PI) { "interval-outside-[-pi,pi]" } else { "order" };
-                                viol(rep, "C12", &format!("{name}|ill-formed-accepted|{cls}"), "Ok for ill-formed bounds".into(), det.clone());
-                            }
-                            if !us {
-                                viol(rep, "C12", &format!("{name}|returned-space-unusable"), "bounds operations unwound on the returned space".into(), det);
-                            }
-                        }
-                        Ok(Err(e)) => {
-                            rep.count("constructed_err", 1);
-                            if want_wf {
-                                viol(rep, "C12", &format!("{name}|well-formed-rejected"), format!("rejected with {e:?}"), det);
-                            } else if n != 3 && !matches!(e, StateSpaceError::DimensionMismatch { expected: 3, .. }) {
-                                viol(rep, "C12", &format!("{name}|wrong-error"), format!("wrong count reported as {e:?}"), det);
-                            }
-                        }
-                    }
-                }
+                c12_se_case(&b, pos, pc, rep);
+            }
+        }
+    }
+    // two and three sides off at once (a test on the box as a whole can be right for every single bad side)
+    let few: Vec<(f64, f64)> = vec![(0.0, 1.0), (1.0, 0.0), (0.0, 0.0), (f64::NAN, 1.0), (0.0, f64::INFINITY), (f64::INFINITY, f64::NEG_INFINITY), (-1.0, -2.0), (4.0, 5.0), (-4.0, 4.0), (0.0, 2.0 * PI), (-10.0, 1.0), (2.0, -2.0)];
+    for p0 in &few {
+        for p1 in &few {
+            for p2 in &few {
+                let pos = if p2.0.to_bits() != 0f64.to_bits() || p2.1 != 1.0 { 2 } else if p1.0.to_bits() != 0f64.to_bits() || p1.1 != 1.0 { 1 } else { 0 };
+                let pc = [p0, p1, p2][pos];
+                c12_se_case(&[*p0, *p1, *p2], pos, pc, rep);
             }
         }
     }
@@ -979,7 +1028,7 @@ fn c12_states(rep: &mut Report) {
 pub fn run_c12(tier: &'static str) -> i32 {
     let t0 = Instant::now();
     let mut rep = Report::new();
-    c12_rv(&mut rep);
+    c12_rv(&mut rep, tier != "quick");
     c12_so2(&mut rep);
     c12_so3(&mut rep);
     c12_se(&mut rep);
@@ -989,7 +1038,7 @@ pub fn run_c12(tier: &'static str) -> i32 {
         prop: "C12",
         tier,
         level: "exploration",
-        rule: "every constructor argument of the lattice: R^n dimension x bounds-length in {0..3}^2, every ordered bound pair over {-inf,-5,-pi,-1,0,1,pi,5,inf,NaN} (SO(2): plus +-3,+-4,pi+-ulp) in each position, SO(3) radius lattice x 2 centres, SE(2)/SE(3) with 0-4 bounds x 8 pair cases x position; every Ok space is then exercised (enforce/satisfies on the state lattice, scripted sampling) under catch_unwind; state constructors on angles tiny..1e300 and quaternion components 0..1e200; distinct_nontrivial = distinct (arguments, outcome class)",
+        rule: "every constructor argument of the lattice: R^n dimension x bounds-length in {0..3}^2, every ordered bound pair over {-inf,-5,-pi,-1,0,1,pi,5,inf,NaN} (SO(2): plus +-3,+-4,pi+-ulp) in each position and (over a sub-lattice) in two and three positions at once, SO(3) radius lattice x 2 centres, SE(2)/SE(3) with 0-4 bounds x pair cases x position and 12^3 three-sided combinations; every Ok space is then exercised (enforce/satisfies on the state lattice, scripted sampling) under catch_unwind; state constructors on angles tiny..1e300 and quaternion components 0..1e200; distinct_nontrivial = distinct (arguments, outcome class)",
         exhaustive: true,
         bounds: json!({}),
         assumptions: vec!["the cone centre is a unit quaternion (SO3State::new documents normalisation as the caller's job)".into(), "above ~1e16 an angle's congruence class is not representable; only the range is checked there".into()],
